@@ -75,6 +75,9 @@ def run(tier, seed):
             s.roots_mode = ("rp", "none", "several")[i % 3] if fmt in ("packed", "fido-u2f", "tpm") else (("rp", "extra-unrelated", "rp-only")[i % 3] if fmt in regsim.X5C_FORMATS else "rp")
             if fmt == "tpm":
                 s.k["tpm_name_alg"] = ("SHA256", "SHA1", "SHA384", "SHA512")[i % 4]
+            if fmt in regsim.X5C_FORMATS and i % 4 in (1, 2):
+                # the attestation certificate's EC key written as a compressed point: the same key in another valid SubjectPublicKeyInfo encoding
+                s.k["leaf_spki_compressed"] = True
             # the attestation object in any of the encodings CBOR allows for the same value (member order, indefinite lengths, wider length fields), and a credential
             # key with further (ignored) COSE members
             s.k["ao_style"] = cborgen.AO_STYLES[i % len(cborgen.AO_STYLES)]
